@@ -274,7 +274,8 @@ Definition start (file : option bytes) (expected : option N) : state :=
 
 Inductive op :=
 | SetLength (n : Z) | Open (k : N) | Write (i : nat) (d : bytes) | CloseW (i : nat) | CloseBlob
-| Tick | Drain | IoDone | Read | Delete.
+| Tick | Drain | IoDone | Read | Delete
+| Advance (dt : N).   (* time passes on the loop's clock: nothing of a blob depends on it *)
 
 Definition step (o : op) (s : state) : state * res :=
   match o with
@@ -288,6 +289,7 @@ Definition step (o : op) (s : state) : state * res :=
   | IoDone => (io_done s, ROk)
   | Read => read_blob s
   | Delete => delete_blob s
+  | Advance _ => (s, ROk)
   end.
 
 Definition run (ops : list op) (s : state) : state := fold_left (fun st o => fst (step o st)) ops s.
